@@ -317,6 +317,8 @@ def run_shard(shard):
         _, bname, name, tier = shard
         row = M.by_name()[(bname, name)]
         images = ["index", "rnd1", "ff"] + (["zero", "rnd2", "valid"] if tier == "thorough" else [])
+        if row[2] == "scaled":
+            images += ["six", "fa"]
         for image in images:
             for last in last_options(bname, row, tier):
                 for holes in hole_options(row, tier):
